@@ -37,7 +37,7 @@ def setup(ctx):
     from gaddlemaps import _exchage_map
     EM = _exchage_map.ExchangeMap
     for name in ('__call__', '_restore_molecule', '_calculate_refsystems'):
-        _cov.watch(EM.__dict__[name], f'ExchangeMap.{name}')
+        _cov.watch_attr(EM, name, f'ExchangeMap.{name}')
     _cov.start()
 
 
